@@ -345,6 +345,11 @@ func (c *Conn) SetWriteDeadline(t time.Time) error { return nil }
 //go:norace
 func (c *Conn) Pending() int { return len(c.in.buf) }
 
+// Totals returns the number of bytes ever written by this end and by the peer.
+//
+//go:norace
+func (c *Conn) Totals() (sent, received int64) { return c.out.total, c.in.total }
+
 // PeerClosed reports whether the other end has closed (call at quiescence).
 //
 //go:norace
